@@ -71,16 +71,30 @@ Trace == ndJsonDeserialize(IOEnv.VIP_TRACE)
 VARIABLE l
 Debug == "VIP_DEBUG" \in DOMAIN IOEnv /\ IOEnv.VIP_DEBUG = "1"
 
+Chk(label, cond) == IF cond THEN TRUE ELSE (Debug => PrintT(<<"MISMATCH at line", l, label>>)) /\ FALSE
+
+\* the built pool binary (server.go + pool.go in front of the same code): a host that leaves its address to the pool
+\* is handed to clients under its own id at the address it connected from, port 30303 - whatever its handshake claims
+BinAddrOK(ln) ==
+    /\ Chk("pool process died", ln.alive)
+    /\ Chk("advertised under another identity / not parseable", ln.idok)
+    /\ Chk("advertised at another address than the one the host connected from", ln.host = ln.want)
+    /\ Chk("default port", ln.port = "30303")
+
+IsBin(ln) == "ev" \in DOMAIN ln /\ ln.ev = "binaddr"
+
 Init == l = 1
 Next == /\ l <= Len(Trace)
         /\ LET ln == Trace[l] IN
-           /\ ln.bad = ""
-           /\ ln.c \in Cases
-           /\ IF OutcomeOK(ln.c, ln.o) THEN TRUE
-              ELSE (Debug => PrintT(<<"MISMATCH at line", l, "node uri outcome">>)) /\ FALSE
+           IF IsBin(ln) THEN BinAddrOK(ln)
+           ELSE /\ ln.bad = ""
+                /\ ln.c \in Cases
+                /\ IF OutcomeOK(ln.c, ln.o) THEN TRUE
+                   ELSE (Debug => PrintT(<<"MISMATCH at line", l, "node uri outcome">>)) /\ FALSE
         /\ l' = l + 1
 Spec == Init /\ [][Next]_l
 
-Complete == {Trace[i].c : i \in DOMAIN Trace} = Cases
+TableLines == {i \in DOMAIN Trace : ~IsBin(Trace[i])}
+Complete == TableLines = {} \/ {Trace[i].c : i \in TableLines} = Cases
 Accepted == TLCGet("stats").diameter - 1 = Len(Trace) /\ Complete
 =============================================================================
